@@ -715,6 +715,39 @@ theorem overshoot_witness :
     (run (init [{ res := "r", thr := 1 }]) raceOps).tcs.map (fun t => cellOf t.cache (Val.str "a")) = [2] ∧
     ({ res := "r", thr := 1 } : Rule).thrOf (Val.str "a") = 1 := by decide
 
+/-! ## reloads (outside the property's quantifier; two sanity theorems about the executable reuse model) -/
+
+theorem itemsEq_refl (a : List (Val × Int)) : itemsEq a a = true := by
+  simp [itemsEq, List.all_eq_true]
+
+theorem equals_refl (r : Rule) : r.equals r = true := by
+  simp [Rule.equals, itemsEq_refl]
+
+/-- a reload on top of no controllers is a plain load -/
+theorem reload_fresh (s : St) (rules : List Rule) (h : s.tcs = []) : reload s rules = load s rules := by
+  have key : ∀ rs : List Rule, reuseBuild (fun t : Tc => t.rule) Tc.inherit rs [] = rs.map fun r => ({ rule := r } : Tc) := by
+    intro rs
+    induction rs with
+    | nil => rfl
+    | cons r rs ih => simp [reuseBuild, findReuse, Tc.inherit, ih]
+  simp [reload, load, h, key]
+
+/-- reloading exactly the rules in force is invisible: every controller, with its cells, stays as it is
+    (the hotspot part of "an identical reload changes nothing") -/
+theorem reload_same (s : St) (hv : ∀ t ∈ s.tcs, t.rule.valid = true) :
+    reload s (s.tcs.map fun t => t.rule) = s := by
+  have key : ∀ tcs : List Tc, reuseBuild (fun t : Tc => t.rule) Tc.inherit (tcs.map fun t => t.rule) tcs = tcs := by
+    intro tcs
+    induction tcs with
+    | nil => rfl
+    | cons t ts ih => simp [reuseBuild, findReuse, equals_refl, ih]
+  have hf : (s.tcs.map fun t => t.rule).filter Rule.valid = s.tcs.map fun t => t.rule := by
+    apply List.filter_eq_self.mpr
+    intro r hr
+    obtain ⟨t, ht, rfl⟩ := List.mem_map.mp hr
+    exact hv t ht
+  simp [reload, hf, key]
+
 /-! ## deviations of the code from the statement (faithful model, concrete witnesses) -/
 
 /-- repaired defect `first-touch-unchecked` (commit 9ba0999), on the OLD semantics (`entryFT`: the check returned
